@@ -175,7 +175,7 @@ class ConcurrentExecutorFutureResults(ConcurrentExecutorListResults):
     def _put_result(self, result, idx, success):
         super()._put_result(result, idx, success)
         with self._condition:
-            if self._current == self._exec_count:
+            if self._current == self._exec_count and not self.future.done():
                 if self._exception and self._fail_fast:
                     self.future.set_exception(self._exception)
                 else:
@@ -209,6 +209,8 @@ def execute_concurrent_async(
             # nothing was executed, so no completion callback will ever set the future
             future.set_result(results)
     except Exception as e:
-        future.set_exception(e)
+        with executor._condition:
+            if not future.done():
+                future.set_exception(e)
 
     return future
